@@ -612,6 +612,13 @@ class PosPriorityQueue(Generic[T]):
         """
         Reschedule an object which is already in the queue.
         """
+        found = self._pq.find(key)
+        if found is None:
+            return None
+        pri, obj = found
+        if pri.priority_class == 0:
+            # an entry scheduled at a position keeps its place, whatever its priority
+            return obj
         pv = PriorityValue(
             base_priority=new_priority,
             inserted_at=self.n_inserted,
